@@ -67,9 +67,12 @@ def _first_diff(c):
         s = spec[i] if i < len(spec) else "-"
         m = model[i] if i < len(model) else None
         if s == "?":
-            # the history has left the property's domain (a region reaching beyond 2^64): what falcon does from here on
-            # (wrap, panic, accept) is not fixed by the property, and a rewrite that changes it must not raise an alarm
-            break
+            # this operation is outside the property's domain (after a region reaching beyond 2^64 every later operation
+            # is, too): what falcon does here (wrap, panic, accept) is not fixed by the property, and a rewrite that
+            # changes it must not raise an alarm.  Later operations with a specified answer are still judged.
+            if impl[i] == "panic" and req[i].startswith("set "):
+                break
+            continue
         if req[i] == "sections" and _overlap(impl[i]):
             return (i, "violation")
         if s not in ("-", "?") and impl[i] != s:
